@@ -168,7 +168,7 @@ def model(kind, text, need_events=False):
         status = 1
         try:
             os.close(rfd)
-            signal.setitimer(signal.ITIMER_VIRTUAL, CPU_BUDGET * 3)
+            signal.setitimer(signal.ITIMER_PROF, CPU_BUDGET * 2)  # default action of SIGPROF ends the child
             it = seams.Interrupter(None) if need_events else None
             try:
                 oc = outcome_of(p.parse, text, it)
@@ -250,7 +250,19 @@ def _extreme_text(sim, family):
 def _fault_text(sim, family):
     """Fault texts: each aborts the pipeline at a chosen stage. Returns (text, tag)."""
     k = sim.weighted('fkind', [(2, 'F1a_unicode'), (2, 'F1a_tokens'), (4, 'F1b_mutation'), (1, 'F1c_dupmeta'),
-                               (2, 'F1d_type'), (2, 'F1e_sanity'), (1.5, 'F1f_function'), (0.6, 'F1g_keywordish')])
+                               (2, 'F1d_type'), (2, 'F1e_sanity'), (1.5, 'F1f_function'), (0.6, 'F1g_keywordish'),
+                               (1.2, 'F1h_unterminated')])
+    if k == 'F1h_unterminated':
+        # a forgotten closing quote (or bracket) with a tail of varying length on the same line
+        tail = ' '.join(sim.pick('tailw', ('base_link', 'and', '(linear.x', '>', '0.0', 'or', 'angular.z', '<', '1)', 'x', 'y', '@A.k'))
+                        for _ in range(sim.randint('tailn', 1, 14)))
+        opener = sim.pick('opener', ('txt = "', 'txt != "caf', '"', 'x in {1, 2, ', 'x in [0 to ', 'xs[', 'abs(('))
+        body = opener + tail
+        if family == 'property':
+            return sim.pick('ut_prop', ('globally: no a { %s }', '# title: "%s\nglobally: no a', 'globally: no a { %s')) % body, k
+        if family == 'predicate':
+            return '{ %s }' % body, k
+        return body, k
     if family == 'property':
         base = _prop_text(sim)
     elif family == 'predicate':
@@ -381,9 +393,16 @@ def guarded(fn, text, ctx=None):
     """Run fn(text) under a CPU-time budget (ITIMER_VIRTUAL: machine load cannot trip it)."""
     old = signal.signal(signal.SIGVTALRM, _on_vtalrm)
     signal.setitimer(signal.ITIMER_VIRTUAL, CPU_BUDGET)
+    # hard backstop: code that never returns to the interpreter loop (a regular expression that
+    # backtracks exponentially inside the re module) cannot be interrupted by a Python-level
+    # handler; SIGPROF's default action ends the isolated child, whose last progress record tells
+    # the parent which call it was
+    signal.signal(signal.SIGPROF, signal.SIG_DFL)
+    signal.setitimer(signal.ITIMER_PROF, CPU_BUDGET * 2)
     try:
         return outcome_of(fn, text, ctx)
     finally:
+        signal.setitimer(signal.ITIMER_PROF, 0)
         signal.setitimer(signal.ITIMER_VIRTUAL, 0)
         signal.signal(signal.SIGVTALRM, old)
 
@@ -412,6 +431,7 @@ def execute(sc, stats=None, fresh_parsers=None, trace=None):
         fault = call.get('fault')
         count('calls')
         count('text_' + tx['tag'])
+        core.progress({'step': step, 'kind': kind, 'text': text})
         (m_oc, m_events) = model(kind, text)
         count('model_queries')
         fired = False
@@ -492,6 +512,7 @@ def execute(sc, stats=None, fresh_parsers=None, trace=None):
         fam = tx['family']
         fn, kind = {'specification': (hp.parse_specification, 'specification'), 'property': (hp.parse_property, 'property'),
                     'predicate': (hp.parse_predicate, 'predicate'), 'condition': (hp.parse_condition, 'condition')}[fam]
+        core.progress({'step': len(sc['calls']), 'kind': kind, 'text': tx['text']})
         try:
             oc = guarded(fn, tx['text'])
         except _CpuTimeout:
@@ -539,6 +560,15 @@ def one_run(sc, table):
             'sample': {'seed': seed, 'texts': [dict(t, text=t['text'][:160]) for t in sc['texts'][:4]], 'calls': sc['calls'][:8]}}
 
 
+def died_violation(e, sc):
+    """The isolated child was ended by the hard CPU backstop: a non-terminating call."""
+    if not e.progress:
+        raise e
+    last = e.progress[-1]
+    return _viol('timeout', 'the call did not return within %.0fs of CPU time (not even interruptible: process ended by the hard limit)' % (CPU_BUDGET * 2),
+                 last['step'], sc, last['kind'], last['text'])
+
+
 def isolated_execute(sc):
     """Execute a scenario in a child forked from the prepared template (used by minimise/replay)."""
     table = model_table(sc)
@@ -547,7 +577,10 @@ def isolated_execute(sc):
         _table[0] = table
         v = execute(sc, {})
         return v, sc
-    return core.run_isolated(go)
+    try:
+        return core.run_isolated(go)
+    except core.IsolatedDied as e:
+        return died_violation(e, sc), sc
 
 
 def worker(job):
@@ -565,7 +598,18 @@ def worker(job):
             continue
         seed = core.derive(job['master'], PROP, idx)
         sc = gen_scenario(seed, cfg)
-        r = core.run_isolated(one_run, sc, model_table(sc))
+        try:
+            r = core.run_isolated(one_run, sc, model_table(sc))
+        except core.IsolatedDied as e:
+            v = died_violation(e, sc)
+            v['run_index'] = idx
+            v['seed'] = seed
+            found.append(v)
+            stats['runs'] = stats.get('runs', 0) + 1
+            stats['runs_ended_by_hard_cpu_limit'] = stats.get('runs_ended_by_hard_cpu_limit', 0) + 1
+            if len(found) >= 4:
+                break
+            continue
         for k in ('_sites', '_abort_sites', '_transitions'):
             stats[k].update(r['stats'].pop(k, set()))
         core.merge_counts(stats, r['stats'])
@@ -590,6 +634,15 @@ def worker(job):
 
 def minimise(sc, v, budget=120):
     cls = v['class']
+    if cls == 'timeout' and v['step'] < len(sc['calls']):
+        # every re-execution costs the whole CPU budget: try the failing call alone, nothing else
+        single = dict(sc)
+        single['calls'] = [dict(sc['calls'][v['step']], fault=None)]
+        single['module_calls'] = []
+        r, out = isolated_execute(single)
+        if r is not None and r['class'] == cls:
+            return out, r
+        return sc, v
     calls = sc['calls'][:v['step'] + 1] if v['step'] < len(sc['calls']) else list(sc['calls'])
 
     def fails(sub):
